@@ -337,6 +337,15 @@ pub fn run(args: &Args) -> Report {
         check_msg(&mut rep, "MessageView::from_slice", catching(|| MessageView::from_slice(&want).map(|m| (m.header, m.query.to_vec(), m.body.to_vec())).map_err(|e| e.to_string())));
         check_msg(&mut rep, "MessageView::from_slice_exact", catching(|| MessageView::from_slice_exact(&want).map(|m| (m.header, m.query.to_vec(), m.body.to_vec())).map_err(|e| e.to_string())));
         check_msg(&mut rep, "MessageView::to_message", catching(|| MessageView::from_slice(&want).map(|m| m.to_message()).map(|m| (m.header, m.query, m.body)).map_err(|e| e.to_string())));
+        // the same frame followed by more bytes (a pipelined buffer): the non-exact slice parsers must still return exactly this message
+        if case % 2 == 0 {
+            let mut trail = want.clone();
+            let extra = if r.coin() { want[..want.len().min(1 + r.usize_below(120))].to_vec() } else { let k = 1 + r.usize_below(70); r.bytes(k) };
+            trail.extend_from_slice(&extra);
+            check_msg(&mut rep, "Message::from_slice+trailing", catching(|| Message::from_slice(&trail).map(|m| (m.header, m.query, m.body)).map_err(|e| e.to_string())));
+            check_msg(&mut rep, "MessageView::from_slice+trailing", catching(|| MessageView::from_slice(&trail).map(|m| (m.header, m.query.to_vec(), m.body.to_vec())).map_err(|e| e.to_string())));
+            check_msg(&mut rep, "MessageView::to_message+trailing", catching(|| MessageView::from_slice(&trail).map(|m| m.to_message()).map(|m| (m.header, m.query, m.body)).map_err(|e| e.to_string())));
+        }
         check_msg(&mut rep, "read_message", catching(|| {
             let mut rd = ChunkyReader::new(&want, r.fork(4), 1 + r.usize_below(9000));
             repe::read_message(&mut rd).map(|m| (m.header, m.query, m.body)).map_err(|e| e.to_string())
